@@ -33,6 +33,36 @@ CHECKS["C09"]=dict(text="All (parent, child, count 0/1/2) triples over every RFC
 CHECKS["C10"]=dict(text="Statement trees from a 10-item menu (<=2-3 body statements, containers nested to depth 3) are rendered from token lists with the generator recording keyword, decoded argument, nesting and keyword line/column; every token boundary x 8 trivia variants (nothing, blank, tab, LF, CRLF, block comment, line comment, blank lines), leading/trailing trivia and every re-quoting of every argument (unquoted, single, double, '+' split at every position) is parsed and the walk of the returned tree must equal the expectation exactly, positions included.",
   note="Trusted: the generator's position bookkeeping. The shorthand-case expansion the parser performs (RFC 6020 7.9.2) is part of the expected tree.",
   technique="bounded exhaustive enumeration of trivia placements and quotings, exact tree comparison", ref="DESIGN.md §4 C10")
+CHECKS["C11"]=dict(text="55 (quick) / several hundred (thorough) module sets covering every cycle shape (self, 2-cycle, 3-cycle, chain, cross-module, dangling) of imports, includes, typedefs, groupings, identities and features plus structural sets are compiled by the real compiler under a step horizon (schema xor error, cycles and dangling references must be errors), and for every set every instrumented map iteration of parse/compile/schema is an owned choice point: every single deviation (two in thorough) from canonical order is executed and verdict and complete canonical dump must equal the canonical-order run.",
+  note="Trusted: the instrumenter finds every range-over-map in /repo (type information from go/packages); map iteration inside third-party packages is not owned. Error texts are not compared between orders.",
+  technique="bounded exhaustive enumeration of module sets x deviation-bounded exploration of owned map-iteration orders on the real compiler", ref="DESIGN.md §4 C11", engine="E2")
+CHECKS["C12"]=dict(text="Every structure of the bounded generator (8 grouping bodies, nesting, 3 definition sites, 6 use sites, 14 modifications one at a time / in pairs, top-level augments own and cross-module, clashes) is rendered with uses/refine/augment and inlined by the generator from the same abstract structure; both texts are compiled by the real compiler and their canonical dumps must be equal (cross-module augments after substituting module and namespace; run-as-parent of augment-when checked separately); clashes and combinations that are invalid inline must be rejected.",
+  note="Trusted: the generator's inlining transformation and the canonical dump. The Space label of type names and the run-as-parent flag of uses-when are excluded from the comparison (see DESIGN.md).",
+  technique="bounded exhaustive enumeration of grouping/augment structures with a differential (self-comparison) oracle", ref="DESIGN.md §4 C12")
+CHECKS["C13"]=dict(text="Every typedef chain of the bounded generator (8 base types, 2-3 typedef levels + leaf, an 11-14 entry restriction lattice per level incl. unordered, overlapping, touching, out-of-base and inapplicable restrictions, 6 default placements) is compiled by the real compiler; a math/big reference decides validity per level (subset with integer-adjacency merging), the effective value space and the effective default; verdict, Type.Validate on every boundary +-1 unit of every level and Default() must match.",
+  note="Trusted: the reference (harness/c13). Probes with >= 16 significant digits on decimal64 are left to C16's known finding.",
+  technique="bounded exhaustive enumeration of typedef chains against an exact reference model", ref="DESIGN.md §4 C13")
+CHECKS["C14"]=dict(text="All 81 config placements on 3 skeletons, all 256 status placements plus every same-module and cross-module reference pair of statuses for typedef/grouping/feature/identity, 3 feature-dependency shapes x 64 if-feature placements x all 8 enabled-feature sets, and a table of 53-56 deviations (every deviate kind x property x target kind, valid and RFC-forbidden) are compiled by the real compiler; verdicts and effective config/status/presence are compared with reference rules, deviations with the dump of the hand-edited target.",
+  note="Trusted: the reference rules and the generator's edited-target texts.",
+  technique="exhaustive enumeration of placements x all feature sets against reference rules; differential oracle for deviations", ref="DESIGN.md §4 C14")
+CHECKS["C15"]=dict(text="9 placements of a must, when or leafref path (direct, grouping used locally / from another module / nested, augment and uses-augment written in the other module, typedef used from the other module, deviation, submodule) x 12 expressions (prefixes that mean different namespaces in the two modules, prefixes known to only one of them, unprefixed names, syntactically invalid forms) are compiled by the real compiler: it must compile iff the expression is valid and every prefix is known where the statement is textually written, the error must name that module, and every Name-Push of the compiled machine must carry the namespace that module's import table gives.",
+  note="Trusted: the prefix tables of the generator. Unprefixed names and error location for deviation-added statements are UNSPECIFIED.",
+  technique="exhaustive enumeration of (placement x expression) on the real compiler, machine listings inspected", ref="DESIGN.md §4 C15")
+CHECKS["C16"]=dict(text="About 110 (quick) / 200 (thorough) types compiled from YANG text by the real compiler x their probe sets (every bound and bound +-1,2 units in canonical, '+', zero-padded and trailing-zero spellings, 17-20 digit values, lexical near misses; every string of 0-4 characters over a 6-character alphabet with multi-byte characters for string types) are given to Type.Validate; membership is decided exactly with math/big and rune counts; on rejection the path and the custom error-message/app-tag are checked.",
+  note="Trusted: ref/yangval. '-0' for unsigned types and foreign-module identity spellings are UNSPECIFIED.",
+  technique="bounded exhaustive enumeration of (type x string) against an exact value-space model", ref="DESIGN.md §4 C16")
+CHECKS["C17"]=dict(text="6 compiled schemas x every token path of <= 5 (quick) / <= 7 (thorough) tokens over all node names, valid and invalid values, a foreign name and the empty string x AllowIncompletePaths false/true are given to ModelSet.Validate and to a reference walker over the generator's own schema description; verdicts must agree and a rejection must mention the first offending element.",
+  note="Trusted: the reference walker. Dead-prefix pruning only beyond 4/5 tokens (counted in the evidence).",
+  technique="bounded exhaustive enumeration of (schema x token path) against a reference walker", ref="DESIGN.md §4 C17")
+CHECKS["C18"]=dict(text="9 schemas (nested non-presence/presence containers, mandatory leaves, defaults, lists with min/max and unique over direct and descendant leaves, leaf-lists, mandatory and default-case choices, choice in case) x every data tree up to 7 (quick) / 9 (thorough) nodes: schema.ValidateSchema's verdict and number of complaints are compared with a reference that enumerates every missing mandatory node, cardinality and unique violation; the walk of schema.AddDefaults is compared with the reference decoration, must leave explicit data unchanged and be idempotent.",
+  note="Trusted: the reference (harness/c18/model.go). Schemas have no must/when/leafref (schema-side XPath contexts are outside every harness). Data with nodes of two cases of one choice is UNSPECIFIED.",
+  technique="bounded exhaustive enumeration of (schema x data tree) against a reference model", ref="DESIGN.md §4 C18")
+CHECKS["C19"]=dict(text="Every data tree of up to 2 (quick) / 3 (thorough) slots over a two-module schema with all leaf types incl. 64-bit extremes, decimal64, empty, identityref of another module, union, user- and system-ordered lists and leaf-lists is encoded by the real RFC 7951, JSON and XML writers and decoded by the real readers: trees must be equal (order kept for ordered-by user) under every map order of the JSON reader; every byte prefix and every single-token deletion, duplication and replacement of those encodings and every token string up to the bound is decoded under a step horizon: no panic, and on success every leaf value is accepted by its type and no literal the type rejects was altered into an accepted value.",
+  note="Trusted: canonical tree comparison, encoding/json (UseNumber) as reference literal extractor. Map iteration inside encoding/json and rfc7951 is not owned.",
+  technique="bounded exhaustive enumeration of (tree x encoding) round trips and of mutated decoder inputs; owned map order for the JSON reader", ref="DESIGN.md §4 C19", engine="E2")
+CHECKS["C20"]=dict(text="Every config placement (3 values x 4 positions) on 4 skeletons, 14 fixed sets (opd nodes, key-only-config lists, state-only default cases, groupings, augments, rpcs) and in the thorough tier pairs of skeletons are compiled without a filter and with each of 21 filters (nil, IsConfig, IsState, IsOpd, IsConfigOrState, Include/Exclude of every subset, IncludeState); the filtered dump must equal the unfiltered dump pruned top-down by a re-implementation of the predicates on the dump's own fields, and a filter must never turn a compilable set into an error.",
+  note="Trusted: the pruning reference and the canonical dump (defchildren/hasdefault are derived fields and excluded).",
+  technique="bounded exhaustive enumeration of module sets x all filter combinations with a differential (prune-the-unfiltered) oracle", ref="DESIGN.md §4 C20")
 NOT_YET = {}
 props=[json.loads(l) for l in open('/verif/properties.jsonl')]
 checks=[]; na=[]
@@ -63,8 +93,8 @@ m={
           "add_only":True},
  "engines":[
    {"name":"E1","path":"mc/engine","serves_properties":sorted(CHECKS),"kind_free_text":"prefix-tree enumerator with 16 worker processes, crash attribution, known-findings matching"},
-   {"name":"E2","path":"rt/rt.go (RangeMap/SetChooser)","serves_properties":[],"kind_free_text":"deviation-bounded explorer over owned map-iteration orders and injected faults"},
-   {"name":"E3","path":"rt/rt.go (Sched)","serves_properties":["C07"],"kind_free_text":"cooperative scheduler, preemption-bounded stateless DFS, vector-clock race detection"},
+   {"name":"E2","path":"rt/rt.go (RangeMap/SetChooser), mc/engine/deviations.go","serves_properties":["C05","C11","C19"],"kind_free_text":"deviation-bounded explorer over owned map-iteration orders and injected faults"},
+   {"name":"E3","path":"rt/rt.go (Sched), mc/engine/sched.go","serves_properties":["C06","C07"],"kind_free_text":"cooperative scheduler, preemption-bounded stateless DFS, vector-clock race detection"},
  ],
  "checks":checks,
  "not_applicable":na,
